@@ -671,6 +671,10 @@ fn alphabet(prop: Prop) -> Vec<Op> {
         v.push(Op::Adv(32768.0));
         v.extend([Op::Set(S4::X), Op::Set(S4::Y), Op::Set(S4::U1)]);
     } else {
+        if prop == Prop::C05 {
+            // a very long frame: the time-in-state hook must still equal the exact Duration sum
+            v.push(Op::Adv(32768.0));
+        }
         v.extend(S4_ALL.iter().map(|s| Op::Set(*s)));
     }
     v
